@@ -6,6 +6,7 @@
 Require Import ZArith List Bool.
 From D377 Require Import Base.Certs Base.ZpField Base.FieldSec Base.Fields Model.Decaf Model.Gadgets Model.Concrete.
 From D377 Require Import Spec.Edwards Spec.DecafSpec Proofs.Instance Proofs.Final Proofs.GadgetProofs Props.C13.
+From D377 Require Import Generated.GadgetsGen Tie.Gadgets.
 Local Existing Instance FqF.
 
 Lemma fq_neg_m1 : fq_neg (opp one) = false. Proof. reflexivity. Qed.
@@ -14,6 +15,29 @@ Definition g_decode := @decode_g FqF ark_D ark_ZETA fq_neg.
 Definition g_encode := @encode_g FqF fq_a ark_D ark_ZETA fq_neg.
 Definition g_elligator := @elligator_g FqF fq_a ark_D ark_ZETA fq_neg.
 Definition g_new_witness := @new_witness_g FqF fq_a ark_D ark_ZETA fq_neg.
+
+(* ---- the gadget bodies as translated from the current sources (Generated/GadgetsGen.v) ARE the model below:
+   every theorem of C13 and C14 about g_isqrt / g_decode / g_encode / g_elligator is a theorem about the generated code.
+   The constants are the ones extracted from the source (ark_A = COEFF_A, ark_D = COEFF_D, ark_ZETA = ZETA). ---- *)
+Definition gen_isqrt := @isqrt_gen FqF ark_ZETA.
+Definition gen_isqrt_const := @isqrt_gen_const FqF ark_sr.
+Definition gen_decode := @decode_gen FqF ark_D ark_ZETA fq_neg.
+Definition gen_encode := @encode_gen FqF ark_A ark_D ark_ZETA fq_neg.
+Definition gen_elligator := @elligator_gen FqF ark_A ark_D ark_ZETA fq_neg.
+Theorem C14_generated_isqrt : forall x ws y, gen_isqrt x ws y = (g_isqrt x ws y, (ws, y)).
+Proof.
+  intros x ws y. unfold gen_isqrt, g_isqrt.
+  pose proof (@isqrt_gen_sat FqF ark_ZETA x ws y) as H1. pose proof (@isqrt_gen_out FqF ark_ZETA x ws y) as H2.
+  destruct (@isqrt_gen FqF ark_ZETA x ws y) as [b o]. cbn [fst snd] in H1, H2. rewrite H1, H2. reflexivity.
+Qed.
+Theorem C14_generated_isqrt_const : forall x, gen_isqrt_const x = (true, ark_sr one x).
+Proof. exact (@isqrt_gen_const_is FqF ark_sr). Qed.
+Theorem C14_generated_decode : forall s ws y, gen_decode s ws y = let '(sat, gx, gy) := g_decode s ws y in (sat, (gx, gy)).
+Proof. exact (@decode_gen_is FqF ark_D ark_ZETA fq_neg). Qed.
+Theorem C14_generated_encode : forall x y ws v, gen_encode x y ws v = g_encode x y ws v.
+Proof. unfold gen_encode, g_encode. rewrite ark_A_is_m1. exact (@encode_gen_is FqF fq_a ark_D ark_ZETA fq_neg). Qed.
+Theorem C14_generated_elligator : forall r0 ws y, gen_elligator r0 ws y = let '(sat, gx, gy) := g_elligator r0 ws y in (sat, (gx, gy)).
+Proof. unfold gen_elligator, g_elligator. rewrite ark_A_is_m1. exact (@elligator_gen_is FqF fq_a ark_D ark_ZETA fq_neg). Qed.
 
 (* inverse square root: sound for every non-zero argument, whatever the hint *)
 Theorem C14_isqrt_sound : forall x ws y, g_isqrt x ws y = true -> x <> zero ->
